@@ -52,7 +52,7 @@ class World:
 def env_for(run_seed: int, label: str, rnd: random.Random, default: bool = False) -> Dict[str, Any]:
     """A simulated environment for one generator invocation."""
     if default:
-        return {"hashseed": "0", "uuid_seed": None, "ls_seed": None}
+        return {"hashseed": "0", "uuid_seed": None, "ls_seed": None, "locale": None}
     hs = rnd.choice(["0", str(rnd.randrange(1, 2**32 - 1)), str(rnd.randrange(1, 2**32 - 1)), "random"])
     if hs == "random":
         # "random" is what users get by default; for replayability the simulator draws the value
@@ -61,6 +61,8 @@ def env_for(run_seed: int, label: str, rnd: random.Random, default: bool = False
         "hashseed": hs,
         "uuid_seed": core.derive(run_seed, label, "uuid"),
         "ls_seed": core.derive(run_seed, label, "ls") if rnd.random() < 0.8 else None,
+        # "another machine": ASCII default text encoding (no UTF-8 mode, no C-locale coercion)
+        "locale": "C" if rnd.random() < 0.25 else None,
     }
 
 
@@ -97,6 +99,10 @@ def run_generator(
         core.GUARD: "1",
         "LSPV_CONF": str(conf),
     })
+    if env.get("locale") == "C":
+        for k_ in [k_ for k_ in e if k_.startswith("LC_") or k_ in ("LANG", "LANGUAGE")]:
+            del e[k_]
+        e.update({"LC_ALL": "C", "LANG": "C", "PYTHONUTF8": "0", "PYTHONCOERCECLOCALE": "0"})
     cmd = [sys.executable, "-m", "generator", "--plugin", plugin]
     if model_files is not None:
         cmd += ["--model"] + list(model_files)
